@@ -8,7 +8,7 @@ format x compression x dataset (2..6 shards) x damaged shard (first, middle,
 last) x damage (deleted; emptied; garbage not starting with the codec's magic;
 truncated to a generated prefix; tiny / all-0xFF for uncompressed fb) x
 interface x shuffle {0,>0} x file_parallelism {1,2,S,S+2} x repeat
-{False, True}.
+{False, True} x with / without a caller-supplied (identity) process_record.
 Ground truth for "rejected by the decoder": the damaged file is first decoded
 ALONE by that interface's own single-shard decoder (Python reader class;
 Rust: a one-shard native iterator, rejection observed as a worker panic on
@@ -49,6 +49,12 @@ POSITIONS = ["first", "middle", "last"]
 GARBAGE = (b"\x07verif-not-a-shard\x00\xfe" * 9)
 
 
+def identity_record(record):
+    """process_record that changes nothing (works for dicts of arrays and of
+    tensors alike)."""
+    return record
+
+
 def cells_for(fmt):
     return dsops.COMPRESSIONS[fmt]
 
@@ -66,6 +72,8 @@ def strategy(tier):
         "shuffle": st.sampled_from([0, 0, 3]),
         "fp": st.sampled_from(["1", "2", "S", "S+2"]),
         "repeat": st.sampled_from([False, False, True]),
+        # a caller-supplied transformation (identity) is part of the pipeline
+        "proc": st.sampled_from([False, False, True]),
     })
 
 
@@ -132,6 +140,7 @@ def enumerate_grid(tier):
                             "shuffle": shuffle,
                             "fp": ["1", "2", "S", "S+2"][(h >> 28) % 4],
                             "repeat": bool((h >> 32) % 3 == 0),
+                            "proc": bool((h >> 36) % 3 == 0),
                             "exact_iface": True,
                         })
     return cells
@@ -273,7 +282,8 @@ def run_case(case, ctx):
             iface, desc, victim)
         cell = [
             desc["fmt"], desc["compression"], s, case["pos"], damage, iface,
-            case["shuffle"], case["fp"], case["repeat"]
+            case["shuffle"], case["fp"], case["repeat"],
+            bool(case.get("proc"))
         ]
         ctx.label("iface=" + iface, "damage=" + damage, "fmt=" + desc["fmt"])
         if not obligation:
@@ -283,6 +293,9 @@ def run_case(case, ctx):
         opts = {"shuffle": case["shuffle"], "repeat": case["repeat"]}
         if dsops.iface_accepts(iface, "file_parallelism"):
             opts["file_parallelism"] = fp
+        if case.get("proc"):
+            opts["process_record"] = identity_record
+            ctx.label("process_record")
         limit = None if not case["repeat"] else 40 * n
         got = []
         raised = None
